@@ -295,6 +295,28 @@ func c10InputsOne(tier string, tight bool) []c10Input {
 			}
 		}
 	}
+	// (c2) extended-resource names in the MIG name space that do not have the documented
+	// nvidia.com/mig-<n>g.<m>gb form (the API server accepts any extended-resource name), on pods
+	// (pending and running) and on the node that advertises them
+	for _, name := range []string{"nvidia.com/mig-1g", "nvidia.com/mig-3g20gb", "nvidia.com/mig-", "nvidia.com/mig-1g.5", "nvidia.com/mig-.", "nvidia.com/mig-1g.5gb111", "nvidia.com/mig-xg.ygb", "nvidia.com/mig-99999999999999999999g.5gb", "nvidia.com/mig-1g.5gb.extra", "nvidia.com/mig--1g.5gb"} {
+		for _, state := range []string{"", world.StRunning} {
+			for _, advertised := range []bool{false, true} {
+				b := healthyBase()
+				extra := map[string]int64{}
+				if advertised {
+					extra[name] = 2
+				}
+				b.Node(world.NodeOpt{Name: "odd", CPU: "8", Mem: "16Gi", GPUs: 2, GPUMemMiB: 40000, Extra: extra})
+				b.GQueue("qm", "ok-dept", 1, -1, 1)
+				node := ""
+				if state != "" {
+					node = "odd"
+				}
+				b.Workload(world.WL{Name: "m", Queue: "qm", Pods: []world.PodSpec{{Shape: world.Shape{CPUm: 100, Extra: map[string]int64{name: 1}}, State: state, Node: node}}})
+				add("mig-resource-name", fmt.Sprintf("pod requests %q state=%q advertised=%v", name, state, advertised), b.Done())
+			}
+		}
+	}
 	// (d) odd nodes
 	type nodeMut struct {
 		tag string
@@ -491,7 +513,7 @@ func runC10(tier string) int {
 	code := rep.Finish()
 	cov := map[string]any{
 		"evaluations": len(inputs), "distinct_nontrivial": len(outcomes),
-		"rule":              "inputs = every parent function on 3 queues over {root,q0,q1,q2,missing} x 2 workload placements; every sub-group parent graph on 3 sub-groups x minMember {-1,0,1,5}; duplicate/case-differing sub-group names x missing queue; flat groups x minMember x {zero pods, pods on unknown nodes}; 3 GPU annotations x a list of malformed number literals x {pending, running}; 16 malformed nodes x 4 workloads; dangling references; all of these under 2 scheduler configurations (default; spread+signatures+consolidating reclaim); project-level fairness (fullHierarchyFairness=false) x queue names {q0,q1,q2} / {default,q1,q2} x every parent function over {root,n0,n1,n2,default,missing} x 2 placements x roomy/tight. Each input + one healthy queue/workload/node runs through ONE real scheduler cycle in a worker with a 10 s CPU watchdog and ulimit -v 4G; an input on which the worker dies is re-run first in a fresh worker and reported only if the death repeats. distinct_nontrivial = distinct (input class, panic?, open error?, healthy workload bound?, number of decisions) outcomes",
+		"rule":              "inputs = every parent function on 3 queues over {root,q0,q1,q2,missing} x 2 workload placements; every sub-group parent graph on 3 sub-groups x minMember {-1,0,1,5}; duplicate/case-differing sub-group names x missing queue; flat groups x minMember x {zero pods, pods on unknown nodes}; 3 GPU annotations x a list of malformed number literals x {pending, running}; 10 malformed MIG resource names x {pending, running} x {advertised by a node or not}; 16 malformed nodes x 4 workloads; dangling references; all of these under 2 scheduler configurations (default; spread+signatures+consolidating reclaim); project-level fairness (fullHierarchyFairness=false) x queue names {q0,q1,q2} / {default,q1,q2} x every parent function over {root,n0,n1,n2,default,missing} x 2 placements x roomy/tight. Each input + one healthy queue/workload/node runs through ONE real scheduler cycle in a worker with a 10 s CPU watchdog and ulimit -v 4G; an input on which the worker dies is re-run first in a fresh worker and reported only if the death repeats. distinct_nontrivial = distinct (input class, panic?, open error?, healthy workload bound?, number of decisions) outcomes",
 		"samples":           samples,
 		"inputs_per_class":  ck,
 		"cycles_completed":  completed,
